@@ -73,3 +73,23 @@ Proof. intros p p' t a b t'. exact (C05_holds p p' t (Decstbm a b) t'). Qed.
 Check C06_decstbm_region : forall p p' t a b t', TInv t -> execute t (Decstbm a b) = Ok t' -> holds_C05 (mkVt p t) (Decstbm a b) (mkVt p' t') = true.
 Print Assumptions C06_decstbm_region.
 
+From Avt Require Import Proofs.ModeSem.
+(** Proofs/ModeSem.v *)
+(** no other control function adds to the scrollback - also DECSET / DECRST of the non-screen modes, any list: no cell, no wrap mark, no scrollback line changes *)
+Theorem C06_frame_modes_set : forall t ms t', execute t (Decset ms) = Ok t' -> (forall m, In m ms -> m <> AltScreenBuffer /\ m <> SaveCursorAltScreenBuffer) -> lines (buf t') = lines (buf t) /\ other t' = other t.
+Proof. exact C06_frame_decset. Qed.
+Check C06_frame_modes_set : forall t ms t', execute t (Decset ms) = Ok t' -> (forall m, In m ms -> m <> AltScreenBuffer /\ m <> SaveCursorAltScreenBuffer) -> lines (buf t') = lines (buf t) /\ other t' = other t.
+Print Assumptions C06_frame_modes_set.
+
+(** DECRST likewise *)
+Theorem C06_frame_modes_reset : forall t ms t', execute t (Decrst ms) = Ok t' -> (forall m, In m ms -> m <> AltScreenBuffer /\ m <> SaveCursorAltScreenBuffer) -> lines (buf t') = lines (buf t) /\ other t' = other t.
+Proof. exact C06_frame_decrst. Qed.
+Check C06_frame_modes_reset : forall t ms t', execute t (Decrst ms) = Ok t' -> (forall m, In m ms -> m <> AltScreenBuffer /\ m <> SaveCursorAltScreenBuffer) -> lines (buf t') = lines (buf t) /\ other t' = other t.
+Print Assumptions C06_frame_modes_reset.
+
+(** DECSTR, exactly: margins to the full screen, cursor visible, insert and origin off, default pen, ASCII charsets, saved context of the shown screen reset; auto-wrap, LNM, DECCKM, cursor position, both buffers, tab stops and the other screen's saved context untouched *)
+Theorem C06_decstr : forall t, execute t Decstr = Ok (spec_decstr t).
+Proof. exact sem_decstr. Qed.
+Check C06_decstr : forall t, execute t Decstr = Ok (spec_decstr t).
+Print Assumptions C06_decstr.
+
